@@ -246,7 +246,7 @@ def r4(cx):
                 cx.check(fv is not None and fv == want, "C15.R4", "varlink:%s:%s#%d:tag" % (body.path, s.agg["variant"], n), "%s %s" % (s.sp, body.path),
                          "listener obtained through %s is tagged %s (bound sockets must be `false` so that drop unlinks them, activated ones `true`)" % (src or "a closure argument", fv),
                          note_ok="%s -> %s" % (src or ["closure argument (bound)"], bool(fv)))
-    cx.floor("C15.R4", "Listener constructions", n, 5)
+    cx.floor("C15.R4", "Listener constructions", n, 3)
     dr = cx.mir.one("varlink", "<server::Listener as std::ops::Drop>::drop")
     cx.saw(dr)
     cfg = Cfg(dr); ddu = DefUse(dr)
